@@ -8,13 +8,13 @@ replace github.com/spf13/afero => github.com/anz-bank/afero v1.2.4
 
 require (
 	github.com/arr-ai/arrai v0.0.0
+	github.com/arr-ai/frozen v1.11.0
 	github.com/arr-ai/wbnf v0.38.0
 	github.com/sirupsen/logrus v1.9.4
 	github.com/spf13/afero v1.11.0
 )
 
 require (
-	github.com/arr-ai/frozen v1.11.0 // indirect
 	github.com/arr-ai/hash v1.1.0 // indirect
 	github.com/cpuguy83/go-md2man/v2 v2.0.4 // indirect
 	github.com/davecgh/go-spew v1.1.1 // indirect
